@@ -175,6 +175,37 @@ def r1_cache_key(ctx, prog):
         src0, comp0, place0 = _sources(b0, cap0, {2: "<cache>"})
         entries = M.call_blocks(b0, r"HashMap::<K, V, S, A>::entry$|HashMap<.*>::entry$")
         oi = M.call_blocks(b0, r"Entry::<'a, K, V, A>::or_insert_with$|Entry.*::or_insert_with$")
+        vins = M.call_blocks(b0, r"VacantEntry::<'a, K, V, A>::insert$|VacantEntry.*::insert$|VacantEntry.*::insert_entry$")
+        if len(entries) == 2 and not oi and vins:
+            # `match map.entry(k) { Occupied(e) => .., Vacant(e) => e.insert(<constructor>) }`: same cache, written with a match. The
+            # constructor is inline: everything this closure reads besides the cache must be part of the two keys
+            if b0.dominates(entries[1], entries[0]):
+                entries = [entries[1], entries[0]]
+            keys, badk = [], None
+            for e_ in entries:
+                ks, kc = place0(op_place(b0.blocks[e_]["term"]["args"][1]))
+                keys.append(ks - {"<cache>"})
+                badk = badk or kc
+            used = set()
+            for i_, t_ in b0.calls():
+                if i_ in entries:
+                    continue
+                for a_ in t_["args"]:
+                    pl_ = op_place(a_)
+                    if pl_:
+                        used |= place0(pl_)[0]
+            used.discard("<cache>")
+            key_all = keys[0] | keys[1]
+            if badk:
+                r.viol("R1:%s#computed-key" % g, "the cache key is computed (%s) rather than being the locale/options themselves: distinct options can share a slot" % badk, file=b0.file, line=b0.line)
+            elif keys[0] != {"locale"}:
+                r.viol("R1:%s#locale-key" % g, "the outer map is keyed by %s, not by the locale" % sorted(keys[0]), file=b0.file, line=b0.line)
+            elif (used & set(params)) - key_all or set(params) - key_all:
+                r.viol("R1:%s#unkeyed:%s" % (g, ",".join(sorted(((used & set(params)) | set(params)) - key_all))), "parameter(s) %s are used to build the formatter but are not part of the cache key" % sorted(((used & set(params)) | set(params)) - key_all), file=b0.file, line=b0.line)
+            else:
+                CTOR.setdefault(id(prog), {})[g] = (b0, ["+".join(sorted(x)) for x in keys])
+                r.inst(g, "key = (locale, %s); entry matched by hand (Occupied / Vacant), constructor inline" % ", ".join(sorted(keys[1])))
+            continue
         if len(entries) != 2 or len(oi) != 1:
             r.viol("R1:%s#shape" % g, "expected entry(locale).or_default().entry(options).or_insert_with(..): %d entry call(s), %d or_insert_with" % (len(entries), len(oi)), file=b0.file, line=b0.line)
             continue
@@ -765,7 +796,33 @@ def _r3_runtime(r, ctx, prog):
         cb, labels = info
         t = mirsum.summary(prog, cb, args=[("tuple", tuple(("cap", l) for l in labels))])
         c = find_ctor(t) if t is not None else None
-        got = mirsum.fmt(c) if c is not None else (mirsum.fmt(t) if t is not None else "a branching computation")
+        if t is None:
+            # a getter that matches on the entry by hand: every path that constructs must construct from the two key values
+            ps = mirsum.paths(prog, cb, depth=2)
+            got_all = set()
+            for _conds, trace, _ret in ps or []:
+                ents = [x for x in trace if x[0] == "call" and re.search(r"HashMap.*::entry$", x[1])]
+                cc = None
+                for x in trace:
+                    cc = cc or find_ctor(x)
+                if cc is None or len(ents) != 2:
+                    continue
+
+                def subst(x, m):
+                    if x in m:
+                        return m[x]
+                    if isinstance(x, tuple):
+                        return tuple(subst(y, m) for y in x)
+                    return x
+                m = {ents[0][2][1]: ("cap", labels[0]), ents[1][2][1]: ("cap", labels[1])}
+                got_all.add(mirsum.fmt(subst(cc, m)))
+            if len(got_all) == 1:
+                c = True
+                got = got_all.pop()
+            else:
+                got = "a branching computation" if not got_all else " / ".join(sorted(got_all))
+        else:
+            got = mirsum.fmt(c) if c is not None else mirsum.fmt(t)
         if got == w:
             r.inst(g + "#ctor", w)
         else:
